@@ -83,10 +83,11 @@ struct World
 void install(World &w)
 {
   World *wp = &w;
-  w.t->onAccept([wp](SessionId s, const TransportAddress &) { wp->log.push_back({'A', s, 0}); });
-  w.t->onConnect([wp](SessionId s, const TransportAddress &) { wp->log.push_back({'C', s, 0}); });
+  // (callbacks are visible events: a scheduling point precedes each, see C03/C05)
+  w.t->onAccept([wp](SessionId s, const TransportAddress &) { mc_yield_point("cb"); wp->log.push_back({'A', s, 0}); });
+  w.t->onConnect([wp](SessionId s, const TransportAddress &) { mc_yield_point("cb"); wp->log.push_back({'C', s, 0}); });
   w.t->onData([wp](SessionId s, iora::core::BufferView d, std::chrono::steady_clock::time_point) { wp->log.push_back({'D', s, int(d.size())}); });
-  w.t->onClose([wp](SessionId s, const TransportErrorInfo &) { wp->log.push_back({'X', s, 0}); });
+  w.t->onClose([wp](SessionId s, const TransportErrorInfo &) { mc_yield_point("cb"); wp->log.push_back({'X', s, 0}); });
 }
 
 // Digest the log into per-session facts and check the window / uniqueness clauses incrementally.
